@@ -163,19 +163,31 @@ type PingMessage struct {
 	Time time.Time // 发出 Ping 消息的时间
 }
 
-func onPingMessageReader(message any, reader *Reader, codec Codec) error {
-	m := message.(*PingMessage)
-	var unixNano int64
-	if err := reader.ReadInto(&unixNano); err != nil {
-		return err
+// WriteTime 以 (Unix 秒, 纳秒) 写入时间。
+// 不使用 UnixNano：其仅能表示 1678~2262 年之间的时间，零值 time.Time{} 等超出范围的时间经其编码后无法还原。
+func WriteTime(writer *Writer, t time.Time) error {
+	return writer.WriteFrom(t.Unix(), int32(t.Nanosecond()))
+}
+
+// ReadTime 读取由 WriteTime 写入的时间。
+func ReadTime(reader *Reader) (time.Time, error) {
+	var sec int64
+	var nsec int32
+	if err := reader.ReadInto(&sec, &nsec); err != nil {
+		return time.Time{}, err
 	}
-	m.Time = time.Unix(0, unixNano)
-	return nil
+	return time.Unix(sec, int64(nsec)), nil
+}
+
+func onPingMessageReader(message any, reader *Reader, codec Codec) (err error) {
+	m := message.(*PingMessage)
+	m.Time, err = ReadTime(reader)
+	return err
 }
 
 func onPingMessageWriter(message any, writer *Writer, codec Codec) error {
 	m := message.(*PingMessage)
-	return writer.WriteFrom(m.Time.UnixNano())
+	return WriteTime(writer, m.Time)
 }
 
 type PongMessage struct {
@@ -185,19 +197,25 @@ type PongMessage struct {
 
 func onPongMessageReader(message any, reader *Reader, codec Codec) error {
 	m := message.(*PongMessage)
-	var pingTime int64
-	var respondTime int64
-	if err := reader.ReadInto(&pingTime, &respondTime); err != nil {
+	pingTime, err := ReadTime(reader)
+	if err != nil {
 		return err
 	}
-	m.Ping = &PingMessage{Time: time.Unix(0, pingTime)}
-	m.RespondTime = time.Unix(0, respondTime)
+	respondTime, err := ReadTime(reader)
+	if err != nil {
+		return err
+	}
+	m.Ping = &PingMessage{Time: pingTime}
+	m.RespondTime = respondTime
 	return nil
 }
 
 func onPongMessageWriter(message any, writer *Writer, codec Codec) error {
 	m := message.(*PongMessage)
-	return writer.WriteFrom(m.Ping.Time.UnixNano(), m.RespondTime.UnixNano())
+	if err := WriteTime(writer, m.Ping.Time); err != nil {
+		return err
+	}
+	return WriteTime(writer, m.RespondTime)
 }
 
 type WatchMessage struct{}
